@@ -1,5 +1,6 @@
 import FinProtoc.Proofs.DecSound
 import FinProtoc.Proofs.RoundTrip
+import FinProtoc.Proofs.RoundTripC
 import FinProtoc.Props.C01
 /-!
 # C02 — decoders invert encoders and consume exactly one message
@@ -14,8 +15,12 @@ Two layers (DESIGN §8 C02):
   every *plain* message (`Wire.plainVal`: every field kind except match payloads and the computed members, any
   nesting, any list lengths within the prefix range), whatever bytes follow; with the two soundness theorems this gives
   `emitted_roundtrip_plain`: for every accepted emitted program, decoding what its own encoder wrote returns the
-  message and consumes exactly it.  For messages with match payloads, length-of and checksum members the round trip is
-  evaluated per run on sampled messages (driver op `search`) and per emitted self-test (C17) — `_plain` marks the limit.
+  message and consumes exactly it.
+* `spec_roundtrip_computed` / `emitted_roundtrip_computed`: the same on the larger domain `Wire.cplainVal` that also
+  admits length-of and checksum members with ANY caller value, for every registry; the decoded message equals the
+  original up to those computed members (`Wire.eraseFields` overwrites them with 0 on both sides) — the "logically
+  equal message" of the property.  Match payloads are the one kind still outside the proved domain: for them the round
+  trip is evaluated per run on sampled messages (driver op `search`) and per emitted self-test (C17).
 -/
 namespace FinProtoc.Props
 open FinProtoc FinProtoc.IR FinProtoc.Conforms FinProtoc.Wire
@@ -45,6 +50,32 @@ theorem emitted_roundtrip_plain (S : Schema) (P : Prog) (hE : confEnc S P = true
   simp only [List.nil_append] at hx
   subst hx
   exact dec_sound S P hD fuel pkt _ vs sfx (hd fuel sfx hfuel)
+
+/-- the declared round trip with length-of / checksum members, up to those members -/
+theorem spec_roundtrip_computed (S : Schema) (reg : Registry) (pkt : String) (vs : List Val) (acc r : Bytes)
+    (hp : Wire.cplainVal S (.obj pkt) (.struct vs) = true) (h : Wire.enc S reg pkt vs acc = some r) :
+    ∃ xs, r = acc ++ xs ∧ ∀ fuel sfx, depthList vs < fuel →
+      ∃ ds p, S.find pkt = some p ∧ Wire.dec S fuel pkt (xs ++ sfx) = some (ds, sfx) ∧
+        Wire.eraseFields S p.fields ds = Wire.eraseFields S p.fields vs :=
+  Wire.dec_enc_computed S reg pkt vs acc r hp h
+
+/-- C02 end to end with computed members: an accepted emitted program decodes what it encoded, consumes exactly it, and
+returns the logically equal message -/
+theorem emitted_roundtrip_computed (S : Schema) (P : Prog) (hE : confEnc S P = true) (hD : confDec S P = true)
+    (reg : Registry) (pkt : String) (vs : List Val) (bs : Bytes)
+    (hp : Wire.cplainVal S (.obj pkt) (.struct vs) = true)
+    (hsafe : lenSafeVal S (.obj pkt) (.struct vs) = true)
+    (hwire : Wire.enc S reg pkt vs [] = some bs) (fuel : Nat) (hfuel : depthList vs < fuel) :
+    encStruct P reg fuel pkt vs [] = some bs ∧
+      ∀ sfx, ∃ ds p, S.find pkt = some p ∧ decStruct P fuel pkt (bs ++ sfx) = some (ds, sfx) ∧
+        Wire.eraseFields S p.fields ds = Wire.eraseFields S p.fields vs := by
+  refine ⟨enc_sound S P hE reg pkt vs [] bs hsafe hwire fuel hfuel, ?_⟩
+  intro sfx
+  obtain ⟨xs, hx, hd⟩ := Wire.dec_enc_computed S reg pkt vs [] bs hp hwire
+  simp only [List.nil_append] at hx
+  subst hx
+  obtain ⟨ds, p, hfind, hdec, her⟩ := hd fuel sfx hfuel
+  exact ⟨ds, p, hfind, dec_sound S P hD fuel pkt _ ds sfx hdec, her⟩
 
 /-- C03 (decoder half): two accepted programs decode alike wherever the declared decoder is defined. -/
 theorem dec_agree (S : Schema) (P₁ P₂ : Prog) (h₁ : confDec S P₁ = true) (h₂ : confDec S P₂ = true)
